@@ -302,6 +302,7 @@ class Generator(object):
         self.section = 0
         self.range_seen_here = set()
         self.assumed_notes = set()
+        self.loop_elem = {}
         self.used_lemmas = getattr(self, 'used_lemmas', set())
         self.side_harnesses = []
 
@@ -672,7 +673,22 @@ class Generator(object):
                 self.assume_quants_over(prop, pool0, 'requires %s (loop terms, entry)' % label)
         self.out('/* ---- loop %s (%s) : base */' % (lid, lp.src))
         for j, (label, prop) in enumerate(invs):
-            self.assert_prop(prop, '%s.base.%s[%s]' % (base_id, label, self.cfgname), 'inv_base')
+            boid = '%s.base.%s[%s]' % (base_id, label, self.cfgname)
+            if isinstance(prop, Quant) and getattr(lp, 'init', None) is not None and not _is_nested(prop):
+                # a range that is empty or a single element on entry is stated for that element itself (with the loop variable
+                # replaced by its initial value, so that index terms match the code before the loop syntactically)
+                from expr import subst as _subst
+                m = {lp.var: E.const(lp.init)}
+                lo0, hi0 = _subst(prop.lo, m), _subst(prop.hi, m)
+                width = hi0 - lo0
+                if width.is_const() and int(width.cval()) <= 1:
+                    if int(width.cval()) == 1:
+                        b0 = prop.body(lo0)
+                        items = b0 if isinstance(b0, (list, tuple)) else [b0]
+                        for jj, x in enumerate(items):
+                            self.emit_assert(_subst(conj_all(x), m), '%s.single#%d' % (boid, jj), 'inv_base')
+                    continue
+            self.assert_prop(prop, boid, 'inv_base')
         sc, ar = ir.write_set([lp])
         sc, ar = self.expand_frames(lp, sc, ar)
         self.out('/* ---- loop %s : havoc write set */' % lid)
@@ -697,13 +713,21 @@ class Generator(object):
             self.out('%s = %s;' % (self.p(variant0), self.p(ls['variant'](L))))
         # bounds of the quantified invariants before the iteration (to separate old elements from the new one at the step)
         old_bounds = {}
+        old_shapes = {}
         for label, prop in invs:
             if isinstance(prop, Quant):
                 lo_o = self.fresh_global('lo_old', INT)
                 hi_o = self.fresh_global('hi_old', INT)
                 self.out('%s = %s; %s = %s;' % (self.p(lo_o), self.p(prop.lo), self.p(hi_o), self.p(prop.hi)))
                 old_bounds[label] = (lo_o, hi_o)
+                iv = E.var(lp.var, INT)
+                shape = ('i+1' if prop.lo.key() == (iv + 1).key() else None, 'i' if prop.hi.key() == iv.key() else None)
+                old_shapes[label] = shape
         self.cur_loop = (owner, lp, L)
+        if ls.get('local'):
+            # the hypotheses of the local iteration lemma must hold here, at the start of the iteration, in context
+            for lab, pfact in ls['local']['pre'](L):
+                self.emit_assert(pfact, '%s.local_pre.%s[%s]' % (base_id, lab, self.cfgname), 'inv_step')
         self.stmts(lp.body, spec)
         if ls.get('local'):
             pre = ls['local']['pre'](L)
@@ -711,14 +735,22 @@ class Generator(object):
             lh = local_iteration_harness(self, lp, L, pre, post, self.prop, self.cfgname)
             if not any(x.name == lh.name for x in self.side_harnesses):
                 self.side_harnesses.append(lh)
+            # the facts are stated about a ghost copy of the loop variable, so that the step obligations for the new element
+            # can mention the very same terms
+            elem = self.fresh_global('elem', INT)
+            self.out('%s = %s;' % (self.p(elem), lp.var))
+            self.loop_elem[lp.var] = elem
+            from expr import subst as _subst
             for lab, pfact in post:
-                self.emit_assume(pfact, 'local iteration lemma ' + lab)
+                self.emit_assume(_subst(E.const(pfact), {lp.var: elem}), 'local iteration lemma ' + lab)
         self.stmts(lp.step, spec)
         invs2 = ls['inv'](L)
         self.section += 1
         for label, prop in invs2:
             oid = '%s.step.%s[%s]' % (base_id, label, self.cfgname)
             if isinstance(prop, Quant) and label in old_bounds and not _is_nested(prop):
+                self.cur_loop_var = lp.var
+                self.cur_pre_bounds = {id(prop): old_shapes.get(label)}
                 self.assert_quant_step(prop, old_bounds[label], oid)
             else:
                 self.assert_prop(prop, oid, 'inv_step')
@@ -735,6 +767,16 @@ class Generator(object):
         the new bottom element, and the (integer-only) coverage fact.  The new elements are stated without a skolem, so they
         match the facts established by the body syntactically."""
         lo_o, hi_o = old
+        elem = self.loop_elem.get(getattr(self, 'cur_loop_var', None))
+        top_e, bot_e = hi_o, lo_o - 1
+        if elem is not None:
+            # when the range is [.., i) or (i, ..] in the pre-step loop variable, the new element is the ghost copy of i
+            pre = getattr(self, 'cur_pre_bounds', {}).get(id(q))
+            if pre is not None:
+                if pre[1] == 'i':
+                    top_e = elem
+                if pre[0] == 'i+1':
+                    bot_e = elem
         sk = self.skolem(0)
         in_new = lambda t: (q.lo <= t) & (t < q.hi)
         in_old = lambda t: (lo_o <= t) & (t < hi_o)
@@ -745,9 +787,9 @@ class Generator(object):
             for j, x in enumerate(items):
                 self.emit_assert(implies(guard, conj_all(x)), '%s.%s#%d' % (oid, tag, j), 'inv_step')
         each(in_new(sk) & in_old(sk), sk, 'kept')
-        each(in_new(hi_o) & mk_not(in_old(hi_o)), hi_o, 'new_top')
-        each(in_new(lo_o - 1) & mk_not(in_old(lo_o - 1)), lo_o - 1, 'new_bottom')
-        self.emit_assert(implies(in_new(sk), in_old(sk) | sk.eq(hi_o) | sk.eq(lo_o - 1)), '%s.coverage' % oid, 'inv_step')
+        each(in_new(top_e) & mk_not(in_old(top_e)), top_e, 'new_top')
+        each(in_new(bot_e) & mk_not(in_old(bot_e)), bot_e, 'new_bottom')
+        self.emit_assert(implies(in_new(sk), in_old(sk) | sk.eq(top_e) | sk.eq(bot_e)), '%s.coverage' % oid, 'inv_step')
 
     def run_ghosts(self, owner, lp, anchor, L):
         for key in ('loop%s.%s' % (lp.key[1], anchor),):
@@ -1044,6 +1086,27 @@ class GhostCtx(object):
         g.emit_assert(implies((lo <= sk) & (sk + 1 < hi) & conj_all(P(sk)), conj_all(P(sk + 1))), '%s.step[%s]' % (base, g.cfgname), 'lemma')
         g.assume_prop(Quant(lo, hi, P), 'induction ' + name)
 
+    def abstract_lemma(self, name, hyps, concls):
+        """(hyps ==> concls) proved in an array-free harness in which every distinct array-cell term is an independent scalar
+        (a generalisation: cells that may coincide are treated as unrelated, which only weakens the hypotheses).  In context
+        the hypotheses are asserted (they match the instantiated invariants syntactically) and the conclusions assumed."""
+        g = self.gen
+        hyps = [E.const(h) for h in hyps]
+        concls = [E.const(c) for c in concls]
+        lh = abstract_lemma_harness(g, name, hyps, concls)
+        if not any(x.name == lh.name for x in g.side_harnesses):
+            g.side_harnesses.append(lh)
+        base = '%s/%s/lemma.%s' % (g.prop, g.fn.key, name)
+        for j, h in enumerate(hyps):
+            g.emit_assert(h, '%s.hyp%d[%s]' % (base, j, g.cfgname), 'lemma')
+        for c in concls:
+            g.emit_assume(c, 'abstract lemma ' + name)
+
+    def use_under(self, guard, lemma, *args):
+        args = [E.const(a) for a in args]
+        self.gen.used_lemmas.add(lemma.name)
+        self.gen.emit_assume(implies(E.const(guard) & lemma.hyp(*args), lemma.concl(*args)), 'lemma ' + lemma.name)
+
     def use(self, lemma, *args):
         """instance of a pure lemma (proved separately for all reals)"""
         args = [E.const(a) for a in args]
@@ -1154,6 +1217,8 @@ def scalar_stmts(stmts, sc, out, pr, ind=1):
         elif isinstance(s, (Ghost, Comment)):
             continue
         elif isinstance(s, Assert):
+            if s.kind == 'div' and any(getattr(s, 'fname', '').endswith(x) for x in getattr(sc, 'assumed_nonzero', [])):
+                out.append('%s__CPROVER_assume(%s);' % (pad, pr.p(sc.ex(s.e))))      # stated assumption: non-singular pivot
             continue          # structural obligations are discharged in the in-context harness
         elif isinstance(s, Assume):
             out.append('%s__CPROVER_assume(%s);' % (pad, pr.p(sc.ex(s.e))))
@@ -1170,10 +1235,61 @@ def scalar_stmts(stmts, sc, out, pr, ind=1):
             raise GenError('cannot scalarise statement %s' % type(s).__name__)
 
 
+def abstract_lemma_harness(gen, name, hyps, concls):
+    pr = Printer('real')
+    cells = {}
+    names = {}
+
+    def ab(e):
+        if not isinstance(e, E) or e.op == 'const':
+            return e
+        if e.op == 'var':
+            names[e.args[0]] = e.ty
+            return e
+        if e.op == 'idx':
+            k = (e.args[0], e.args[1].key())
+            if k not in cells:
+                cells[k] = 'a%d_%s' % (len(cells) + 1, e.args[0][-20:])
+                names[cells[k]] = e.ty
+            return E.var(cells[k], e.ty)
+        from expr import rebuild
+        return rebuild(e.op, [ab(a) for a in e.args], e.ty)
+    ht = [pr.p(ab(h)) for h in hyps]
+    ct = [pr.p(ab(c)) for c in concls]
+    Lc = ['/* abstract lemma %s: array cells as independent scalars */' % name, 'typedef __CPROVER_rational real;']
+    for n in sorted(pr.consts):
+        Lc.append('real %s;' % n)
+    for n, t in sorted(names.items()):
+        Lc.append('%s %s;' % (CTYPE[t], n))
+    Lc.append('int main(void) {')
+    for n, fr in sorted(pr.consts.items()):
+        Lc.append('  __CPROVER_assume(%s * %d == %d);' % (n, fr.denominator, fr.numerator))
+    for t in ht:
+        Lc.append('  __CPROVER_assume(%s);' % t)
+    obls = []
+    for j, t in enumerate(ct):
+        o = Obligation('%s/%s/abstract.%s#%d[%s]' % (gen.prop, gen.fn.key, name, j, gen.cfgname), 'local', 'abstract lemma')
+        obls.append(o)
+        o.index = len(obls)
+        Lc.append('  __CPROVER_assert(%s, "c%d");' % (t, j))
+    o = Obligation('%s/%s/abstract.%s.reach[%s]' % (gen.prop, gen.fn.key, name, gen.cfgname), 'reach', 'hypotheses satisfiable')
+    obls.append(o)
+    o.index = len(obls)
+    Lc.append('  __CPROVER_assert(0, "reach");')
+    Lc.append('  return 0;\n}')
+    h = Harness()
+    h.text = '\n'.join(Lc) + '\n'
+    h.name = 'abstract.%s.%s[%s]' % (gen.fn.key, name, gen.cfgname)
+    h.obligations = obls
+    h.frame_problems = []
+    return h
+
+
 def local_iteration_harness(gen, lp, L, pre, post, prop, tag):
     """array-free harness of one iteration: assume pre, run the body, assert each post fact"""
     pr = Printer('real')
     sc = Scalariser()
+    sc.assumed_nonzero = list(getattr(L.S, 'assumed_nonzero', []))
     body = []
     pre_txt = [pr.p(sc.ex(E.const(p))) for _, p in pre]
     scalar_stmts(lp.body, sc, body, pr)
